@@ -78,6 +78,7 @@ func c08GenSeq(rng *rand.Rand, w *wWorld, flavour string, soft bool) []c08SeqOp 
 	cfg := chainGenCfg{exGenCfg: exGenCfg{table: tableOf(soft)}, soft: soft, allowEmpty: true}
 	condFree := flavour == "C09" && rng.Intn(3) > 0 // C09: mostly statements that never get a condition
 	session := rng.Intn(3) == 0
+	loaded := false
 	for i := 0; i < n; i++ {
 		k := rng.Intn(20)
 		switch {
@@ -117,6 +118,12 @@ func c08GenSeq(rng *rand.Rand, w *wWorld, flavour string, soft bool) []c08SeqOp 
 			ops = append(ops, c08SeqOp{Kind: "session", Desc: "Session(&gorm.Session{})"})
 		case k < 15:
 			f := c08ReadFins[rng.Intn(len(c08ReadFins))]
+			if f == "scan" && loaded {
+				// Scan (through Rows) keeps the statement's Dest: after First/Take/Last that is the LOADED record, whose key
+				// becomes a condition of the statement — a value with a primary key, outside the sequences judged here
+				f = "find"
+			}
+			loaded = loaded || f == "first" || f == "take" || f == "last"
 			ops = append(ops, c08SeqOp{Kind: "fin", Fin: f, Desc: f})
 		case k < 17:
 			ops = append(ops, c08SeqOp{Kind: "fin", Fin: "update", Desc: "Update(b, 77)"})
@@ -383,7 +390,19 @@ func c08SeqRun(db *gorm.DB, rec *Recorder, c c08SeqCase, ops []c08SeqOp) (obs []
 	return obs
 }
 
-func c08SeqOne(r *Result, seed int64, flavour string) {
+// c08SeqJob: one generated call sequence, executed on the real code (phase 1); judged once the Lean statement machine
+// answered (phase 2) — the model is asked for many sequences in ONE driver run
+type c08SeqJob struct {
+	c            c08SeqCase
+	w            *wWorld
+	rows         []wRow
+	ops, steps   []c08SeqOp
+	obs          []c08StepObs
+	live0, dead0 string
+	ask          []interface{}
+}
+
+func c08SeqPrepare(seed int64, flavour string) *c08SeqJob {
 	rng := rand.New(rand.NewSource(seed))
 	w := newWorld()
 	soft := flavour == "C08" || flavour == "C09" && rng.Intn(2) == 0
@@ -404,15 +423,46 @@ func c08SeqOne(r *Result, seed int64, flavour string) {
 	}
 	db, rec, sqlDB := openW(rows, soft, nil)
 	defer sqlDB.Close()
-	live0, dead0 := c08Dumps(db, soft)
-	obs := c08SeqRun(db, rec, c, ops)
+	j := &c08SeqJob{c: c, w: w, rows: rows, ops: ops, steps: steps}
+	j.live0, j.dead0 = c08Dumps(db, soft)
+	j.obs = c08SeqRun(db, rec, c, ops)
+	filter, mk, opsJ := c08SeqJSON(w, steps, soft, c.ModelKey)
+	j.ask = []interface{}{"stmt.run", filter, mk, false, opsJ}
+	return j
+}
+
+func c08SeqBatch(r *Result, jobs []*c08SeqJob) {
+	if len(jobs) == 0 {
+		return
+	}
+	ask := make([][]interface{}, len(jobs))
+	for i, j := range jobs {
+		ask[i] = j.ask
+	}
+	res, err := AskLean(ask)
+	if err != nil {
+		r.Violate(Violation{Kind: "correspondence", Suite: "reuse", Note: err.Error()})
+		return
+	}
+	for i, j := range jobs {
+		c08SeqFinish(r, j, res[i])
+	}
+}
+
+func c08SeqOne(r *Result, seed int64, flavour string) {
+	c08SeqBatch(r, []*c08SeqJob{c08SeqPrepare(seed, flavour)})
+}
+
+func c08SeqFinish(r *Result, j *c08SeqJob, raw json.RawMessage) {
+	c, w, rows, ops, steps, obs, live0, dead0 := j.c, j.w, j.rows, j.ops, j.steps, j.obs, j.live0, j.dead0
+	flavour, soft := c.Flavour, c.Soft
+	_, _ = w, soft
 	r.Case("reuse", fmt.Sprint(flavour, soft, c.ModelKey, c.TxMode, c.Ops), true)
 	r.H("reuse.txmode", c.TxMode)
 	r.H("reuse.calls", fmt.Sprint(len(steps)))
 	r.H("reuse.completed", fmt.Sprint(len(obs) == len(steps)))
 
 	// ---------------------------------------------------------------- the tie: Lean statement machine
-	filter, mk, opsJ := c08SeqJSON(w, steps, soft, c.ModelKey)
 	type mstate struct {
 		NExprs   *int     `json:"nexprs"`
 		Marker   bool     `json:"marker"`
@@ -423,9 +473,8 @@ func c08SeqOne(r *Result, seed int64, flavour string) {
 		Where    string   `json:"where"`
 	}
 	var model []mstate
-	res, err := AskLean([][]interface{}{{"stmt.run", filter, mk, false, opsJ}})
-	if err != nil || json.Unmarshal(res[0], &model) != nil || len(model) != len(steps) {
-		r.Violate(Violation{Kind: "correspondence", Suite: "reuse", Input: c, Observed: fmt.Sprint(err, " ", string(firstRaw(res))), Note: "the Lean statement machine rejected the call sequence"})
+	if json.Unmarshal(raw, &model) != nil || len(model) != len(steps) {
+		r.Violate(Violation{Kind: "correspondence", Suite: "reuse", Input: c, Observed: string(raw), Note: "the Lean statement machine rejected the call sequence"})
 		return
 	}
 	sound := true
@@ -611,6 +660,9 @@ func c09SeqJudge(r *Result, c c08SeqCase, steps []c08SeqOp, obs []c08StepObs, li
 				return
 			}
 		}
+		if st.Kind == "fin" && (c.ModelKey != 0 && st.Fin == "update" || st.Fin == "delete" && (st.VKey != 0 || c.ModelKey != 0)) {
+			eff = true // the key condition a write added stays on the statement
+		}
 		if so.Live != "" {
 			prevLive, prevDead = so.Live, so.Dead
 		}
@@ -642,9 +694,15 @@ func init() {
 			if p == "C09" {
 				n = map[string]int{"quick": 260, "thorough": 5000, "search": 2500}[tier]
 			}
+			var jobs []*c08SeqJob
 			for i := 0; i < n && !expired(); i++ {
-				c08SeqOne(r, rng.Int63(), p)
+				jobs = append(jobs, c08SeqPrepare(rng.Int63(), p))
+				if len(jobs) >= 400 {
+					c08SeqBatch(r, jobs)
+					jobs = nil
+				}
 			}
+			c08SeqBatch(r, jobs)
 		})
 		replayers[p+"/reuse"] = func(r *Result, input json.RawMessage) {
 			var c c08SeqCase
